@@ -101,6 +101,31 @@ def outcome(fn, *a, **k):
         return ('raise', type(ex).__name__)
 
 
+class CallTimeout(BaseException):
+    pass
+
+
+def outcome_timed(seconds, fn, *a, **k):
+    """like outcome(), but a call that runs longer than `seconds` is aborted and canonicalised to ('raise', 'CallTimeout').
+    (PGPy loops `declared length` times over some subpacket bodies: a mutated length octet can make one parse take hours.)
+    Main thread only (uses SIGALRM)."""
+    import signal
+
+    def _h(signum, frame):
+        raise CallTimeout()
+    old = signal.signal(signal.SIGALRM, _h)
+    signal.setitimer(signal.ITIMER_REAL, seconds)
+    try:
+        return ('ok', fn(*a, **k))
+    except CallTimeout:
+        return ('raise', 'CallTimeout')
+    except Exception as ex:
+        return ('raise', type(ex).__name__)
+    finally:
+        signal.setitimer(signal.ITIMER_REAL, 0)
+        signal.signal(signal.SIGALRM, old)
+
+
 class Ctx:
     def __init__(self, prop, tier, seed):
         self.prop = prop
